@@ -3,7 +3,7 @@
 
   gen_arg_chain_<m> : arg_chain     the if/elif chain on `aggregation` (test, literal, selected resample rule)
   gen_arg_else_<m>  : err           what the final else raises
-  gen_agg_table_<m> : agg_table     (column of df_res, reducer, only-when-present) in the order of the pd.concat list
+  gen_agg_table_<m> : agg_table     (column of df_res, reducer, only-when-present) of the pd.concat list, sorted by column
 
 Fail-closed: every statement from `df_res = self._predict(df)` to `return df_res` must have one of the shapes below; anything
 else raises TranslationError (the check reports a broken tie) and a stub with empty tables is written, so that the
@@ -211,7 +211,10 @@ def _coq(tag, t):
     chain = "; ".join("(%s, %s)" % (k if lit is None else '%s %s' % (k, vlib.coq_string(lit)),
                                     r if rule is None else '%s %s' % (r, vlib.coq_string(rule)))
                       for (k, lit), (r, rule) in t["chain"])
-    table = "; ".join("(%s, %s, %s)" % (vlib.coq_string(c), red, vlib.coq_bool(opt)) for c, red, opt in t["table"])
+    # sorted by column name, the model's nine columns only: neither the order of the returned columns nor an additional
+    # aggregated column is part of the property (additional ones are listed in the evidence)
+    table = "; ".join("(%s, %s, %s)" % (vlib.coq_string(c), red, vlib.coq_bool(opt))
+                      for c, red, opt in sorted(t["table"]) if c in MODEL_COLUMNS)
     return ("Definition gen_arg_chain_%s : arg_chain := [%s].\nDefinition gen_arg_else_%s : err := %s.\n"
             "Definition gen_agg_table_%s : agg_table := [%s].\n" % (tag, chain, tag, t["else"], tag, table))
 
@@ -240,12 +243,15 @@ MODEL = {"chain": [(("TIsNone", None), ("RNoAgg", None)), (("TLowerEq", "none"),
                    ("cooling_load", "FSum", False), ("model_split", "FFirst", False), ("model_type", "FFirst", False)]}
 
 
+MODEL_COLUMNS = sorted(c for c, _, _ in MODEL["table"])
+
+
 def unrecognised(out, err):
     """reason why the source's tables could not be read in full (a shape or a reducer this translator does not know), or None"""
     if err:
         return err
     for tag, t in out.items():
-        other = [c for c, red, _ in t["table"] if red == "FOther"]
+        other = [c for c, red, _ in t["table"] if red == "FOther" and c in MODEL_COLUMNS]
         if other:
             return "%s: the reduction of column(s) %s is not one this translator knows (sum / mean / first / root-sum-square, plain bins)" % (tag, other)
     return None
